@@ -360,6 +360,11 @@ def run(chk: Check, ctx: Any) -> None:
     mins = [c for c in walk_no_nested(rm.node) if isinstance(c, ast.Call) and dotted(c.func) == "min"]
     chk.decide("C04-R6", "multiline:reader-min-indent", len(mins) == 1, rm, "the reader does not dedent by the least indentation of the lines", "reader dedents by the least indentation")
     print_parse_rule(chk, ctx, "C04-R7")
+    chk.rule("C04-R8", "every op with special syntax x a class table of values for each of its parameter slots (operator codes incl. one outside the table, "
+                       "dungeon-mode states 0..3, outside and as constants, variables by name and by number, the performance variable, bit indices): "
+                       "decompiled and compiled back with both interpreted, the same operations and parameter values return")
+    from .special_values import special_values_rule
+    special_values_rule(chk, ctx, "C04-R8")
 
 
 # --------------------------------------------------------------------------- R7: print -> parse identity, printers and readers interpreted
